@@ -38,7 +38,8 @@ def gen_file(ctx):
             if r.random() < 0.4:
                 defines.append(dict(defines[-2]))       # ... and once more, word for word as the first time: the last statement still decides
     # alias names, also ones that extend a published model name by a digit / underscore / letters (one word of the language all the same)
-    an = r.sample(["MA0", "MyVSS", "AliasX", "slpole_1", "HQETtune", "ISGW2_Dstlnu", "HQET2_Dlnu", "SLPOLE2", "PHSP_1", "SLBKPOLE_DtoKlnu", "VSS1", "ISGW22", "PHSP0"],
+    an = r.sample(["MA0", "MyVSS", "AliasX", "slpole_1", "HQETtune", "ISGW2_Dstlnu", "HQET2_Dlnu", "SLPOLE2", "PHSP_1", "SLBKPOLE_DtoKlnu", "VSS1", "ISGW22", "PHSP0",
+                   "vss", "Helamp", "phsp", "Svs_cp", "isgw2"],      # the language is case-sensitive: these are labels, not models
                   r.choice([0, 1, 2, 3, 4, 6]))
     an = [n for n in an if L.label_ok(n, g.models)]
     aliases = []
